@@ -506,7 +506,7 @@ pub fn handle_campaign(seed: u64, count: u64, max_ops: u64, ops_path: &str, impl
                         0..=3 => format!("hwrite {} {}", id, hex(&pattern(*r.pick(&[1usize, 10, 64, 100, 700, 1024, 3000, 4096, 5000]), h * 131 + lines_done))),
                         4 | 5 => format!("hread {} {}", id, r.pick(&[1usize, 10, 100, 1000, 5000, 100000])),
                         6 => format!("hseek {} {}", id, r.below(6000)),
-                        7 => format!("hsetlen {} {}", id, r.pick(&[0usize, 10, 64, 100, 4095, 4096, 4097, 6000, 9000])),
+                        7 => format!("hsetlen {} {}", id, r.pick(&[0usize, 10, 64, 100, 4095, 4096, 4097, 6000, 9000, 37, 128, 192, 1000, 1024, 4608, 5000, 5120, 8192])),
                         8 => format!("hflush {}", id),
                         _ => {
                             open.remove(&id);
